@@ -480,8 +480,8 @@ def known_key(case, exc, patched):
     segs = case['segs']
     if not patched and any(s['imode'] == 'R' for s in segs) and isinstance(exc, ValueError) and 'IMODE is `R`' in str(exc):
         return KEY_R
-    if isinstance(exc, IndexError) and case['opts']['tr'] and segs[0]['cplx'] != 'N' and segs[0]['nb'] == 2 and \
-            (len(segs) > 1 or segs[0]['imode'] == 'S'):
+    rank_error = isinstance(exc, IndexError) or (isinstance(exc, ValueError) and 'transpose_axes must be a permutation' in str(exc))
+    if rank_error and case['opts']['tr'] and segs[0]['cplx'] != 'N' and segs[0]['nb'] == 2 and (len(segs) > 1 or segs[0]['imode'] == 'S'):
         return KEY_T
     return None
 
